@@ -123,22 +123,27 @@ func New(
 	s.t.ControlCharacterCallback = func(key rune) {
 		switch key {
 		case 0x0F: /* ^O, silence output for a bit. */
-			s.wL.Lock()
-			defer s.wL.Unlock()
-			/* Don't double-pause. */
-			if s.silenced {
-				go s.Logf(ColorRed, false, "Already muted")
-				return
-			}
-			/* Pause output for a bit. */
-			s.silenced = true
-			s.resetSilenceTimer(true)
-			go s.Logf(
-				ColorRed,
-				false,
-				"Muting until we get %s of calm",
-				PlainWritePause,
-			)
+			/* In its own goroutine; we're called with the
+			terminal locked, for which whoever holds s.wL to
+			write may well be waiting. */
+			go func() {
+				s.wL.Lock()
+				defer s.wL.Unlock()
+				/* Don't double-pause. */
+				if s.silenced {
+					go s.Logf(ColorRed, false, "Already muted")
+					return
+				}
+				/* Pause output for a bit. */
+				s.silenced = true
+				s.resetSilenceTimer(true)
+				go s.Logf(
+					ColorRed,
+					false,
+					"Muting until we get %s of calm",
+					PlainWritePause,
+				)
+			}()
 		case 0x09: /* ^I, paste from file. */
 			go s.insert()
 		case 0x0a: /* ^J, like ^I but just locally. */
